@@ -81,7 +81,8 @@ fn all_k(n: usize) -> Vec<usize> {
 fn enumerate(_t: Tier, shard: usize, nshards: usize, f: &mut dyn FnMut(Case) -> bool) {
     let mut sc = ShardCounter::new(shard, nshards);
     for fam in [Fam::Dyn, Fam::Static] {
-        for n in 0..=fam.max_n() {
+        // the dynamic type has no size limit: two sizes beyond the stated sample (table > 256 words)
+        for n in 0..=(if fam == Fam::Dyn { 16 } else { fam.max_n() }) {
             let mut ctors = vec![Ctor::Zero, Ctor::One, Ctor::Parity, Ctor::Majority, Ctor::Default];
             for i in 0..n {
                 ctors.push(Ctor::NthVar(i));
@@ -125,7 +126,7 @@ fn strategy(_t: Tier) -> BoxedStrategy<Case> {
 pub fn def() -> PropDef {
     PropDef {
         id: "C11",
-        rule: "cases = (family, n, constructor with argument). Enumerated completely in both tiers: for every n in 0..=12 (LutN) / 0..=14 (Lut): zero, one, parity, majority, Default, nth_var(i) for all i<n, equals(k) and threshold(k) for all k in 0..=n+2 and k in {31,32,33,62..66,127,128,255,256,usize::MAX/2,usize::MAX/2+1,usize::MAX-1,usize::MAX}, symmetric(c) for c in {0,!0,alternating,nibbles,ends} and every single bit / single cleared bit 0..=65 (mod 64). Generated: symmetric(c) for arbitrary and small c, equals/threshold with arbitrary k. Oracle: popcount definitions evaluated on every assignment and compared through value(); no panic for any k. Non-trivial = the denoted function is not constant; distinct by (family, n, constructor, argument).",
+        rule: "cases = (family, n, constructor with argument). Enumerated completely in both tiers: for every n in 0..=12 (LutN) / 0..=16 (Lut): zero, one, parity, majority, Default, nth_var(i) for all i<n, equals(k) and threshold(k) for all k in 0..=n+2 and k in {31,32,33,62..66,127,128,255,256,usize::MAX/2,usize::MAX/2+1,usize::MAX-1,usize::MAX}, symmetric(c) for c in {0,!0,alternating,nibbles,ends} and every single bit / single cleared bit 0..=65 (mod 64). Generated: symmetric(c) for arbitrary and small c, equals/threshold with arbitrary k. Oracle: popcount definitions evaluated on every assignment and compared through value(); no panic for any k. Non-trivial = the denoted function is not constant; distinct by (family, n, constructor, argument).",
         assumptions: vec!["value() as observation channel; stray bits in blocks() are C02's statement"],
         subs: vec![Box::new(Sub {
             name: "ctors",
